@@ -477,3 +477,25 @@ func vBreakLineOrphansWidows() (int, []string) {
 //@   loop 1 invariant forall(k, old(index), index, text[k] == ' ')
 //@   loop 1 exit[all-leading-spaces] index >= length || text[index] != ' '
 //@   call skipFirstWhitespace#2 assert[next-sibling-scanned-from-its-start] cont && arg0 == children[index] && arg1 == nil
+
+// CSS 2.1 §9.4.3 relative positioning: left wins over right in ltr (right over left in rtl), top wins
+// over bottom; `right` and `bottom` move the box the other way; auto/auto does not move it.
+//@ func relativePositioning
+//@   props C10
+//@   modifies anything
+//@   unclaimed call-*-pre* "box accessors on a laid-out box"
+//@   let ltr = box.Style.GetDirection() == "ltr"
+//@   call Translate#1 assert[dx] arg2 == ite(box.Left != pr.AutoF && (box.Right == pr.AutoF || ltr), pr.VV(box.Left), ite(box.Right != pr.AutoF, -pr.VV(box.Right), 0))
+//@   call Translate#1 assert[dy] arg3 == ite(box.Top != pr.AutoF, pr.VV(box.Top), ite(box.Bottom != pr.AutoF, -pr.VV(box.Bottom), 0))
+//@   call Translate#1 assert[the-box-itself] arg0 == box_ && arg1 == box_ && arg4 == false
+//@   call resolvePositionPercentages#1 assert arg0 == box && arg1 == containingBlock
+
+// offsets: left / right are percentages of the containing block width, top / bottom of its height
+//@ func resolvePositionPercentages
+//@   props C10
+//@   modifies anything
+//@   unclaimed call-resolveOnePercentage@*-pre1 "computed lengths are px, percentages or auto: a data invariant of computed styles"
+//@   call resolveOnePercentage#1 assert[left] arg0 == box.Style.GetLeft() && arg2 == containingBlock[0]
+//@   call resolveOnePercentage#2 assert[right] arg0 == box.Style.GetRight() && arg2 == containingBlock[0]
+//@   call resolveOnePercentage#3 assert[top] arg0 == box.Style.GetTop() && arg2 == containingBlock[1]
+//@   call resolveOnePercentage#4 assert[bottom] arg0 == box.Style.GetBottom() && arg2 == containingBlock[1]
